@@ -25,6 +25,8 @@
 (*  seqinit / seq : a step of a stateful sequence on a mutable container;  *)
 (*        at check points the object's encoding and view next to those of  *)
 (*        a fresh object built from the model's content.                   *)
+(*  api : one call of an encoder entry point within a sequence: what it    *)
+(*        returned (bytes, size, EOF).                                     *)
 (*  big : a large input given by a descriptor was decoded into type ty by  *)
 (*        DecodeBytes (d), by a stream without input limit (u) and by the  *)
 (*        generic decoder (g): accepted, allocation, bytes consumed.       *)
@@ -34,8 +36,9 @@ EXTENDS Rlp
 TraceLog == ndJsonDeserialize("trace.ndjson")
 
 VARIABLES l, viol, fired,
-          cont      \* the model content of the container of the current stateful sequence (folded with SeqApply)
-mvars == <<c, l, viol, fired, cont>>
+          cont,     \* the model content of the container of the current stateful sequence (folded with SeqApply)
+          rd        \* the model state of the readers of the current encoder-API sequence (folded with ApiNext)
+mvars == <<c, l, viol, fired, cont, rd>>
 
 \* "never allocates far beyond the input size": a measured resource bound.  What a decoder may spend is bounded by the
 \* bytes it CONSUMED before it returned (for an accepted input: all of them; for a rejected one: the prefix it looked at),
@@ -49,7 +52,7 @@ AllocK == 16384
 \* entry points that read the node's own database are not "hostile input" entry points: only NoPanic is asked of them
 DiskEntry == {"ReadVoteData", "rawdb.ReadBody"}
 
-Clauses == {"RoundTrip", "EncodeDeterministic", "EncodeCanonical", "OneEncoding", "AcceptImpliesCanonical", "OneHash", "GenericAgrees", "NoPanic",
+Clauses == {"RoundTrip", "EncodeDeterministic", "EncodeCanonical", "OneEncoding", "EncoderStateless", "AcceptImpliesCanonical", "OneHash", "GenericAgrees", "NoPanic",
             "RejectNotCrash", "AllocBounded"}
 
 \* discriminator of an input that was accepted although it is not THE encoding of a value
@@ -156,12 +159,23 @@ RtV(e, ln) == LET s == Schema(e.ty) p == Parse(e.b) IN
 DetV(e, ln) == LET s == Schema(e.ty) p == Parse(e.b) IN
    PanicV(e, ln) \cup (IF e.pan = "" /\ e.nenc # 1 THEN {<<"EncodeDeterministic", Class(e.ty, s, p) \ {"reencoding_differs"}, ln>>} ELSE {})
 
+\* The encoder entry points share a buffer pool: every call returns what the model says -- a reader the next bytes of
+\* Enc(ITS value) (and EOF exactly at their end), an immediate encoding Enc(its value), EncodeToReader the size of it --
+\* whatever was interleaved ("equal objects have one encoding": the bytes that leave belong to the value that was encoded).
+ApiOp(e) == [op |-> e.op, v |-> e.v, s |-> e.s]
+ApiV(e, ln) == PanicV(e, ln) \cup
+   (IF e.pan = "" /\ ~(e.out = ApiOut(rd, ApiOp(e)) /\ e.size = ApiSize(ApiOp(e)) /\ e.eof = ApiEof(rd, ApiOp(e)))
+    THEN {<<"EncoderStateless", {e.op, IF e.out # ApiOut(rd, ApiOp(e)) THEN "bytes_of_another_value" ELSE "size_or_eof"}, ln>>} ELSE {})
+NextRd(e) == CASE e.ev = "reset" -> ApiInit
+                [] e.ev = "api" -> ApiNext(rd, ApiOp(e))
+                [] OTHER -> rd
 NextCont(e) == CASE e.ev = "seqinit" -> e.init
                   [] e.ev = "seq" -> SeqApply(e.op, e.x, cont)
                   [] OTHER -> cont
 Judge(e, ln) == CASE e.ev = "dec" -> DecV(e, ln)
                   [] e.ev = "encbig" -> EncBigV(e, ln)
                   [] e.ev = "seq" -> SeqV(e, NextCont(e), ln)
+                  [] e.ev = "api" -> ApiV(e, ln)
                   [] e.ev = "gen" -> GenV(e, ln)
                   [] e.ev = "rt"  -> RtV(e, ln)
                   [] e.ev = "det" -> DetV(e, ln)
@@ -173,21 +187,23 @@ Fire(e) == [k \in Clauses |->
    CASE k = "RoundTrip" -> IF e.ev \in {"rt", "encbig"} THEN 1 ELSE 0
      [] k = "EncodeCanonical" -> IF e.ev = "encbig" THEN 1 ELSE 0
      [] k = "OneEncoding" -> IF e.ev = "seq" /\ e.chk THEN 1 ELSE 0
+     [] k = "EncoderStateless" -> IF e.ev = "api" THEN 1 ELSE 0
      [] k = "EncodeDeterministic" -> IF e.ev = "det" THEN 1 ELSE 0
      [] k = "AcceptImpliesCanonical" -> IF e.ev = "dec" THEN (IF e.acc THEN 1 ELSE 0) + (IF e.sacc THEN 1 ELSE 0)
                                         ELSE IF e.ev = "big" THEN (IF e.d.acc THEN 1 ELSE 0) + (IF e.u.acc THEN 1 ELSE 0) ELSE 0
      [] k = "OneHash" -> IF e.ev = "dec" /\ e.acc /\ e.oh1 # "" THEN 1 ELSE 0
      [] k = "GenericAgrees" -> IF e.ev \in {"dec", "gen", "big"} THEN 1 ELSE 0
-     [] k = "NoPanic" -> IF e.ev \in {"dec", "gen", "rt", "det", "big", "encbig", "seq"} THEN 1 ELSE 0
+     [] k = "NoPanic" -> IF e.ev \in {"dec", "gen", "rt", "det", "big", "encbig", "seq", "api"} THEN 1 ELSE 0
      [] k = "RejectNotCrash" -> IF e.ev = "dec" THEN Len(e.ent) ELSE 0
      [] k = "AllocBounded" -> IF e.ev = "dec" THEN 2 ELSE IF e.ev = "gen" THEN 1 ELSE IF e.ev = "big" THEN 3 ELSE 0]
 
-MInit == c = 0 /\ l = 1 /\ viol = {} /\ fired = [k \in Clauses |-> 0] /\ cont = <<>>
+MInit == c = 0 /\ l = 1 /\ viol = {} /\ fired = [k \in Clauses |-> 0] /\ cont = <<>> /\ rd = ApiInit
 Step == /\ l <= Len(TraceLog)
         /\ l' = l + 1
         /\ viol' = viol \cup Judge(TraceLog[l], l)
         /\ fired' = LET f == Fire(TraceLog[l]) IN [k \in Clauses |-> fired[k] + f[k]]
         /\ cont' = NextCont(TraceLog[l])
+        /\ rd' = NextRd(TraceLog[l])
         /\ UNCHANGED c
 MSpec == MInit /\ [][Step]_mvars
 \* the trace is one linear behaviour: the line number identifies the state (keeps the growing `viol` out of the fingerprint)
